@@ -62,8 +62,84 @@ func mutate(t *rapid.T, c *proxyv1alpha1.UpstreamCluster) []string {
 	n := rapid.IntRange(0, 4).Draw(t, "nedits")
 	for i := 0; i < n; i++ {
 		l := fmt.Sprintf("edit[%d]", i)
-		k := rapid.IntRange(0, 21).Draw(t, l+".kind")
+		k := rapid.IntRange(0, 29).Draw(t, l+".kind")
 		switch k {
+		case 22, 23, 24:
+			// plausible schema: a valid draw, possibly with one number nudged
+			name := rapid.SampledFrom([]string{"s1", "s2", "s3"}).Draw(t, l+".name")
+			sc := gen.GenSchema(t, l+".valid", name, true)
+			if rapid.IntRange(0, 2).Draw(t, l+".nudge") == 0 {
+				v := genI32(t, l+".v")
+				switch {
+				case sc.MaxRequestsInflight != nil && rapid.Bool().Draw(t, l+".loc"):
+					sc.MaxRequestsInflight.Max = v
+				case sc.GlobalMaxRequestsInflight != nil:
+					sc.GlobalMaxRequestsInflight.Max = v
+				case sc.TokenBucket != nil && rapid.Bool().Draw(t, l+".qps"):
+					sc.TokenBucket.QPS = v
+				case sc.TokenBucket != nil:
+					sc.TokenBucket.Burst = v
+				}
+			}
+			found := false
+			for j := range c.Spec.FlowControl.Schemas {
+				if c.Spec.FlowControl.Schemas[j].Name == name {
+					c.Spec.FlowControl.Schemas[j] = sc
+					found = true
+				}
+			}
+			if !found {
+				c.Spec.FlowControl.Schemas = append(c.Spec.FlowControl.Schemas, sc)
+			}
+			if len(c.Spec.DispatchPolicies) > 0 {
+				c.Spec.DispatchPolicies[len(c.Spec.DispatchPolicies)-1].FlowControlSchemaName = name
+			}
+			edits = append(edits, "plausible schema "+name)
+		case 25, 26:
+			// https with a plausible client configuration
+			for j := range c.Spec.Servers {
+				c.Spec.Servers[j].Endpoint = strings.Replace(c.Spec.Servers[j].Endpoint, "http://", "https://", 1)
+			}
+			for j := range c.Spec.DispatchPolicies {
+				for x := range c.Spec.DispatchPolicies[j].UpstreamSubset {
+					c.Spec.DispatchPolicies[j].UpstreamSubset[x] = strings.Replace(c.Spec.DispatchPolicies[j].UpstreamSubset[x], "http://", "https://", 1)
+				}
+			}
+			cc := &c.Spec.ClientConfig
+			cc.Insecure = rapid.Bool().Draw(t, l+".insecure")
+			if rapid.Bool().Draw(t, l+".ca") {
+				cc.CAData = mats[0].CAPEM
+			}
+			switch rapid.IntRange(0, 2).Draw(t, l+".auth") {
+			case 0:
+				cc.BearerToken = []byte("tok")
+			case 1:
+				cc.CertData, cc.KeyData = mats[1].CertPEM, mats[1].KeyPEM
+			default:
+				cc.BearerToken = []byte("tok")
+				cc.CertData, cc.KeyData = mats[1].CertPEM, mats[1].KeyPEM
+			}
+			edits = append(edits, fmt.Sprintf("https clientConfig{insecure=%v ca=%d cert=%d token=%d}", cc.Insecure, len(cc.CAData), len(cc.CertData), len(cc.BearerToken)))
+		case 27:
+			q := int32(rapid.IntRange(0, 5).Draw(t, l+".qps"))
+			c.Spec.ClientConfig.QPS, c.Spec.ClientConfig.Burst, c.Spec.ClientConfig.QPSDivisor = q, q+int32(rapid.IntRange(0, 2).Draw(t, l+".b")), int32(rapid.IntRange(0, 3).Draw(t, l+".d"))
+			edits = append(edits, fmt.Sprintf("client qps=%d burst=%d div=%d", c.Spec.ClientConfig.QPS, c.Spec.ClientConfig.Burst, c.Spec.ClientConfig.QPSDivisor))
+		case 28:
+			ss := &c.Spec.SecureServing
+			switch rapid.IntRange(0, 3).Draw(t, l+".what") {
+			case 0:
+				ss.CertData, ss.KeyData = mats[0].CertPEM, nil // certificate without key
+			case 1:
+				ss.CertData, ss.KeyData = nil, mats[0].KeyPEM
+			case 2:
+				ss.CertData, ss.KeyData = append(append([]byte{}, mats[0].CertPEM...), mats[1].CertPEM...), mats[0].KeyPEM
+			default:
+				ss.ClientCAData = append(append([]byte{}, mats[0].CAPEM...), mats[1].CAPEM...)
+			}
+			edits = append(edits, fmt.Sprintf("plausible secureServing{cert=%d key=%d ca=%d}", len(ss.CertData), len(ss.KeyData), len(ss.ClientCAData)))
+		case 29:
+			c.Spec.SecureServing.ServerNames = append(c.Spec.SecureServing.ServerNames, rapid.SampledFrom([]string{"", "UPPER.io", "a b", "alpha", "10.0.0.1", "x:443"}).Draw(t, l+".sn"))
+			edits = append(edits, fmt.Sprintf("serverNames=%q", c.Spec.SecureServing.ServerNames))
 		case 0:
 			if len(c.Spec.Servers) > 0 {
 				j := rapid.IntRange(0, len(c.Spec.Servers)-1).Draw(t, l+".srv")
@@ -466,7 +542,7 @@ func TestPropValidationTotalAndSound(t *testing.T) {
 	sub := stats.NewSub("near-valid-objects", "rapid: a valid UpstreamCluster (shared generator: servers, policies, schemas incl. global members, serving TLS material, annotations) with 0-4 random field edits (junk / unparseable / mixed-scheme endpoints, any combination of the five flow-control members with values from {0,1,-1,2,5,100,-100,MaxInt32,MinInt32}, unknown subset endpoints / schema names, empty rules, junk strategies and log modes, client config combinations with garbage / mismatched PEM, https switch, invalid names, junk feature-gate annotations, global strategy without global member, schema with only a global member); oracle: validation never panics; accepted => every apply stage succeeds; accepted => the must-reject predicate is empty; non-trivial = an edited object (accepted or rejected); distinct by FNV-64 of the object")
 	remote.VerifSetWaitAcquireTimeout(1e6)
 	var prevAccepted *proxyv1alpha1.UpstreamCluster
-	stats.Check(t, stats.N(1500, 25000), func(t *rapid.T) {
+	stats.Check(t, stats.N(3000, 40000), func(t *rapid.T) {
 		c := gen.GenValidCluster(t, "base", "alpha", gen.ObjOpts{Endpoints: []string{"http://127.0.0.1:1", "http://127.0.0.1:2"}, ServerNames: []string{"a.example.com"}, PKI: mats, SchemaNames: []string{"s1", "s2"}})
 		edits := mutate(t, c)
 		errs, p := validate(c)
